@@ -150,6 +150,35 @@ class GeneratorObj:
         raise StopIteration
 
 
+class SuperProxy:
+    """super() inside a method of a class of the analysed files: attribute lookup continues in the base classes (in order, depth first)"""
+
+    def __init__(self, interp, cls, obj):
+        self.interp, self.cls, self.obj = interp, cls, obj
+
+    def lookup(self, attr):
+        it = self.interp
+        todo, seen = list(it.class_bases.get(self.cls, [])), set()
+        unknown_base = False
+        while todo:
+            b = todo.pop(0)
+            if b in seen:
+                continue
+            seen.add(b)
+            if b not in it.own_members:
+                unknown_base = unknown_base or b != 'object'
+                continue
+            m = it.own_members[b].get(attr)
+            if isinstance(m, ast.FunctionDef):
+                return lambda *a, **k: it.call_function(m, [self.obj] + list(a), dict(k), Env())
+            todo = list(it.class_bases.get(b, [])) + todo
+        if unknown_base:
+            raise AnalysisError(f'interpreter: super().{attr} of {self.cls} leads to a class whose source is not loaded')
+        if attr == '__init__':
+            return lambda *a, **k: None          # object.__init__
+        raise Raised('AttributeError', None)
+
+
 class Closure:
     def __init__(self, fn, env, interp):
         self.fn, self.env, self.interp = fn, env, interp
@@ -208,6 +237,10 @@ class Interp:
         self.methods = methods or {}  # kind -> {method name: FunctionDef}: methods of the analysed class, interpreted when a stand-in is asked for them
         self._gen_stack = []
         self.fn_module = {}           # id(FunctionDef) -> ast.Module it is written in
+        self.fn_class = {}            # id(FunctionDef) -> name of the class it is defined in (for super())
+        self.own_members = {}         # class name -> members defined in the class itself
+        self.class_bases = {}         # class name -> names of its base classes
+        self._cls_stack = []
         self.module = None            # ast.Module of the analysed code: its top-level constants and functions resolve free names
         self.src = None               # SourceSet: lets `from mindsdb_sql.x import f` in that module resolve to f's source
         self.steps = 0
@@ -240,12 +273,13 @@ class Interp:
         key = (id(src), relpath, tuple(also))
         cached = _FOR_FILE_CACHE.get(key)
         if cached is None:
-            ms, bases, fnmod = {}, {}, {}
+            ms, bases, fnmod, own0 = {}, {}, {}, {}
             for f in tuple(also) + (relpath,):
                 t = src.tree(f)
                 for st in t.body:
                     if isinstance(st, ast.ClassDef):
                         ms[st.name] = class_members(st)
+                        own0[st.name] = class_members(st)
                         bases[st.name] = [b.id if isinstance(b, ast.Name) else b.attr for b in st.bases if isinstance(b, (ast.Name, ast.Attribute))]
                 for n in ast.walk(t):
                     if isinstance(n, ast.FunctionDef):
@@ -265,12 +299,15 @@ class Interp:
                     for k, v in ms[b].items():
                         ms[name].setdefault(k, v)
                     todo.extend(bases.get(b, []))
-            cached = _FOR_FILE_CACHE[key] = (ms, fnmod, src)       # src is kept alive so that id(src) stays unique
+            own = {k: dict(v) for k, v in own0.items()}
+            fncls = {id(v): k for k, d in own.items() for v in d.values() if isinstance(v, ast.FunctionDef)}
+            cached = _FOR_FILE_CACHE[key] = (ms, fnmod, src, own, bases, fncls)       # src is kept alive so that id(src) stays unique
         ms = dict(cached[0])
         ms.update(methods or {})
         it = cls(isa or {}, stubs or {}, methods=ms, **kw)
         it.module, it.src = src.tree(relpath), src
         it.fn_module = dict(cached[1])
+        it.own_members, it.class_bases, it.fn_class = cached[3], cached[4], dict(cached[5])
         return it
 
     def call_function(self, fn, args, kwargs, outer_env, _as_generator_body=False):
@@ -279,8 +316,15 @@ class Interp:
         env = Env(outer_env)
         params = [a.arg for a in fn.args.args]
         defaults = fn.args.defaults
+        kwargs = dict(kwargs)
+        if fn.args.vararg is not None:
+            env.set(fn.args.vararg.arg, tuple(args[len(params):]))
+        elif len(args) > len(params):
+            raise Raised('TypeError', fn)        # too many positional arguments
         for i, p in enumerate(params):
             if i < len(args):
+                if p in kwargs:
+                    raise Raised('TypeError', fn)    # got multiple values for the argument
                 env.set(p, args[i])
             elif p in kwargs:
                 env.set(p, kwargs.pop(p))
@@ -302,12 +346,14 @@ class Interp:
         mod = self.fn_module.get(id(fn))
         if mod is not None:
             self.module = mod
+        self._cls_stack.append((self.fn_class.get(id(fn)), args[0] if args else None))
         try:
             self.block(fn.body, env)
         except _Return as r:
             return r.value
         finally:
             self.module = saved
+            self._cls_stack.pop()
         return None
 
     # ---- statements -----------------------------------------------------------------------------------------------------
@@ -420,6 +466,9 @@ class Interp:
                 self.block(s.finalbody, env)
         elif isinstance(s, ast.FunctionDef):
             env.set(s.name, Closure(s, env, self))
+        elif isinstance(s, ast.Assert):
+            if not self.ev(s.test, env):
+                raise Raised('AssertionError', s)
         elif isinstance(s, ast.Delete):
             for t in s.targets:
                 if isinstance(t, ast.Subscript):
@@ -642,6 +691,8 @@ class Interp:
         raise AnalysisError(f'interpreter: unmodelled expression `{norm(e)[:80]}`')
 
     def _getattr(self, base, attr, d):
+        if isinstance(base, SuperProxy):
+            return base.lookup(attr)
         if isinstance(base, ClassRef) and base.name == 're' and attr.isupper() and hasattr(re, attr):
             return int(getattr(re, attr))
         if isinstance(base, ClassRef) and attr in self.methods.get(base.name, {}):
@@ -806,6 +857,11 @@ class Interp:
                 if len(args) > 2:
                     return args[2]
                 raise Raised('AttributeError', e)
+            if n == 'super' and not args and 'super' not in self.stubs:
+                cls_, obj_ = self._cls_stack[-1] if self._cls_stack else (None, None)
+                if cls_ is None:
+                    raise AnalysisError('interpreter: super() outside a method of a class whose source is known')
+                return SuperProxy(self, cls_, obj_)
             if n == 'hash' and len(args) == 1:
                 def plain(v):
                     return isinstance(v, (str, int, float, bool, type(None))) or (isinstance(v, (tuple, frozenset)) and all(plain(x) for x in v))
